@@ -1228,3 +1228,41 @@ mut('c18-revert-f19-expect', 'C18', ['C18.2'], S,
 mut('c18-untimed-wait-on-falsy-timeout', 'C18', ['C18.4'], S,
     "            if timeout is not None:\n                return await asyncio.wait_for(future, timeout=timeout)", "            if timeout:\n                return await asyncio.wait_for(future, timeout=timeout)",
     'timeout=0 waits forever')
+mut('c17-log-handler-formats-results', 'C17', ['C17.6'], S,
+    "        # logger.debug(\n        # \tf'✅ {self} completed: {event} -> {list(event.event_results.values()) or '<no handlers matched>'}'\n        # )\n        pass",
+    "        logger.debug(f'completed: {event} -> {[str(r) for r in event.event_results.values()]}')",
+    'the default log hook formats handler-provided values before the WAL append')
+mut('c17-wal-failure-below-default-level', 'C17', ['C17.3'], S,
+    "            logger.error(f'❌ {self} Failed to save event {event.event_id} to WAL file", "            logger.info(f'❌ {self} Failed to save event {event.event_id} to WAL file",
+    'the failure report is below the default logger level')
+mut2('c17-default-level-above-report', 'C17', ['C17.3'], [
+    (M, "BUBUS_LOGGING_LEVEL = os.getenv('BUBUS_LOGGING_LEVEL', 'WARNING').upper()", "BUBUS_LOGGING_LEVEL = os.getenv('BUBUS_LOGGING_LEVEL', 'CRITICAL').upper()"),
+], 'the default logger level filters the failure report out')
+mut('c11-errored-handler-rerun', 'C11', ['C11.7'], S,
+    "            elif existing_result.completed_at is not None:", "            elif existing_result.status == 'completed':",
+    'an errored result no longer blocks a second run')
+mut('c12-include-bool', 'C12', ['C12.6'], M,
+    "        if event_result.result is None:\n            return False", "        if not event_result.result:\n            return False",
+    'falsy results dropped by the default filter')
+mut('c13-status-from-signal', 'C13', ['C13.6'], M,
+    "        return 'completed' if self.event_completed_at else 'started' if self.event_started_at else 'pending'",
+    "        if self._event_completed_signal is not None and self._event_completed_signal.is_set():\n            return 'completed'\n        return 'completed' if self.event_completed_at else 'started' if self.event_started_at else 'pending'",
+    'status read from the sticky completion signal')
+mut('c13-sort-key-datetime', 'C13', ['C13.2'], S,
+    "            started_events.sort(key=lambda x: x[1].event_created_at.timestamp())", "            started_events.sort(key=lambda x: x[1].event_created_at)",
+    'datetimes compared directly')
+mut('c14-shutdown-drains', 'C14', ['C14.5'], S,
+    "        self._is_shutdown = True\n\n        # Cancel all waiting getters without triggering warnings",
+    "        self._is_shutdown = True\n        while not self.empty():\n            self._get()\n\n        # Cancel all waiting getters without triggering warnings",
+    'stop() discards the backlog')
+mut('c03-signal-recreated', 'C03', ['C03.1'], M,
+    "        if self._event_completed_signal is None:\n            try:\n                asyncio.get_running_loop()\n                self._event_completed_signal = asyncio.Event()",
+    "        if self._event_completed_signal is None or getattr(self._event_completed_signal, '_loop', None) is not None:\n            try:\n                asyncio.get_running_loop()\n                self._event_completed_signal = asyncio.Event()",
+    'the completion signal can be replaced by a fresh unset one')
+mut('c20-detached-acquire', 'C20', ['C20.2'], H,
+    "            await semaphore.acquire()\n            return True", "            await asyncio.ensure_future(semaphore.acquire())\n            return True",
+    'the acquisition is detached from the calling task')
+mut('c20-loop-closed-instead-of-running', 'C20', ['C20.5'], H,
+    "            if sem_key not in GLOBAL_RETRY_SEMAPHORES or GLOBAL_RETRY_SEMAPHORE_LOOPS.get(sem_key) is not current_loop:",
+    "            if sem_key not in GLOBAL_RETRY_SEMAPHORES or GLOBAL_RETRY_SEMAPHORE_LOOPS.get(sem_key) is None or GLOBAL_RETRY_SEMAPHORE_LOOPS.get(sem_key).is_closed():",
+    'the cached semaphore is kept while its loop is merely not closed')
